@@ -58,6 +58,11 @@ def config_file(cfg, rng):
     elif sy == "entry-other-name":
         symbols = [("main", entry, 1), ("other", a1, 1)]
         symrec = [(entry, {"main"}), (a1, {"other"})]
+    if symbols is not None:
+        # every DEFINED symbol marks its address, whatever its kind: NOTYPE / OBJECT / FUNC / GNU_IFUNC (how static glibc
+        # defines memcpy, strlen, ...) x LOCAL / GLOBAL / WEAK, section-relative or absolute
+        symbols = [(nm, v, sh if sh == 0 else rng.choice([1, 1, 0xfff1]), (rng.choice([0, 1, 2]) << 4) | rng.choice([0, 1, 2, 2, 10, 10]))
+                   for nm, v, sh in symbols]
     elf = elfgen.build(entry, phdrs, symbols=symbols)
     rec = {"entry": entry,
            "segs": [{"load": True, "vaddr": s["vaddr"], "data": list(s["data"]), "memsz": s["memsz"], "prot": prot_of(s["flags"])} for s in segs],
